@@ -77,9 +77,54 @@ pub fn logged_search(board: &Board, depth: u8, limits: Option<SearchLimits>, sto
     srch::clear_tt();
     let res = srch::run_search(board, Some(depth), limits);
     verif_hooks::set_recorder(None);
+    // what the cache really holds at the end (catches writes that bypass the insert sites)
+    let mut table: Vec<(u64, i16, u8, u8, String)> = TRANSPOSITION_TABLE
+        .read()
+        .unwrap_or_else(std::sync::PoisonError::into_inner)
+        .iter()
+        .map(|(k, e)| {
+            (
+                eng::key_u64(*k),
+                e.score,
+                e.depth,
+                match e.bound {
+                    Bounds::Exact => 0,
+                    Bounds::Lower => 1,
+                    Bounds::Upper => 2,
+                },
+                eng::ply_uci(&e.best_ply),
+            )
+        })
+        .collect();
+    table.sort();
+    *LAST_TABLE.lock().unwrap() = table;
     srch::clear_tt();
     let v = log.lock().unwrap().clone();
     (v, res)
+}
+
+/// final cache contents of the most recent `logged_search`
+pub static LAST_TABLE: Mutex<Vec<(u64, i16, u8, u8, String)>> = Mutex::new(Vec::new());
+
+/// The cache an interrupted run leaves behind must be exactly what its own write log
+/// implies (last write per key) - nothing modified in place, nothing written unobserved.
+pub fn judge_table(l: &[Entry], fen: &str, depth: u8, cut: &str, n: u64) -> Result<(), Violation> {
+    let mut want: std::collections::BTreeMap<u64, (i16, u8, u8, String)> = Default::default();
+    for e in l {
+        want.insert(e.key, (e.score, e.depth, e.bound, e.mv.clone()));
+    }
+    let got = LAST_TABLE.lock().unwrap().clone();
+    let want_v: Vec<(u64, i16, u8, u8, String)> = want.into_iter().map(|(k, v)| (k, v.0, v.1, v.2, v.3)).collect();
+    if got != want_v {
+        let diff = got.iter().find(|g| !want_v.contains(g)).map(|g| format!("cache holds key={:016x} score={} depth={} bound={} move={}", g.0, g.1, g.2, ["exact", "lower", "upper"][g.3 as usize % 3], g.4)).unwrap_or_else(|| "an entry of the log is missing from the cache".into());
+        return Err(Violation::new(
+            "table",
+            &format!("table/differs-from-write-log/{}", if cut == "nodes" { "node-budget" } else { cut }),
+            format!("search of {fen} depth {depth} cut by {cut}={n}: the cache left behind is not what the observed writes produce ({diff}): something was modified in place or written past the insert sites"),
+            cj(fen, depth, cut, n),
+        ));
+    }
+    Ok(())
 }
 
 fn cj(fen: &str, depth: u8, cut: &str, n: u64) -> Value {
@@ -160,7 +205,7 @@ pub fn enumerate(fen: &str, depth: u8, max_full: u64, rep: &mut Report, ctx: &Ct
         if n < s && pending {
             rep.nontrivial(o::hash_str(&format!("{fen}|{depth}|n{n}")));
         }
-        if let Err(v) = judge(&w, &l, fen, depth, "nodes", n) {
+        if let Err(v) = judge(&w, &l, fen, depth, "nodes", n).and_then(|_| judge_table(&l, fen, depth, "nodes", n)) {
             rep.class("cut:nodes:violating");
             note(v, rep);
         }
@@ -176,7 +221,7 @@ pub fn enumerate(fen: &str, depth: u8, max_full: u64, rep: &mut Report, ctx: &Ct
         if k < w.len() as u64 {
             rep.nontrivial(o::hash_str(&format!("{fen}|{depth}|k{k}")));
         }
-        if let Err(v) = judge(&w, &l, fen, depth, "stop", k) {
+        if let Err(v) = judge(&w, &l, fen, depth, "stop", k).and_then(|_| judge_table(&l, fen, depth, "stop", k)) {
             rep.class("cut:stop:violating");
             note(v, rep);
         }
@@ -211,6 +256,17 @@ pub fn run(ctx: &Ctx) -> Report {
         let d = if i % 2 == 0 { 2 } else { 3 };
         if let Err(v) = enumerate(fen, d, max_full, &mut rep, ctx) {
             rep.violation(v);
+        }
+    }
+    // deeper searches (depth 4) of a few sparse positions, budgets strided when the search is large:
+    // re-searches and cut-offs nest more deeply there
+    if ctx.tier == Tier::Thorough || ctx.shard_index() < 6 {
+        let pick = (ctx.shard_index() * 3 + 1) % sparse.len().max(1);
+        if let Some(fen) = sparse.get(pick) {
+            if let Err(v) = enumerate(fen, 4, max_full, &mut rep, ctx) {
+                rep.violation(v);
+            }
+            rep.class("position:depth-4");
         }
     }
     // generated sparse positions
@@ -249,7 +305,7 @@ pub fn run(ctx: &Ctx) -> Report {
                         if l.len() < w.len() && !l.is_empty() {
                             rep.nontrivial(o::hash_str(&format!("{fen}|{d}|{kind}{ms}")));
                         }
-                        if let Err(v) = judge(&w, &l, fen, d, kind, ms as u64) {
+                        if let Err(v) = judge(&w, &l, fen, d, kind, ms as u64).and_then(|_| judge_table(&l, fen, d, kind, ms as u64)) {
                             if let Some(k) = ctx.is_known(&v.sig) {
                                 rep.known(&v.sig, &k.text);
                             } else {
@@ -282,17 +338,17 @@ pub fn replay(_ctx: &Ctx, case: &Value) -> Report {
         _ => logged_search(&board, depth, Some(SearchLimits::new().movetime(Some(n as u128))), None),
     };
     rep.eval(1);
-    if let Err(v) = judge(&w, &l, fen, depth, cut, n) {
+    if let Err(v) = judge(&w, &l, fen, depth, cut, n).and_then(|_| judge_table(&l, fen, depth, cut, n)) {
         rep.violation(v);
     }
     rep
 }
 
 pub const LEVEL: &str = "fault_enumeration";
-pub const RULE: &str = "for each (position, depth 2-3) - sparse corpus positions and proptest-synthesised sparse positions - the uninterrupted search's cache-write log W (hook H2: key, stored entry read back from the table, node counter) is recorded, then the search is re-run with EVERY node budget N = 1..S (S = nodes of the full search; all of them while S <= 1500 quick / 6000 thorough, an evenly strided sample beyond), with stop injected at the k-th cache write for every k, and with movetime 1-5 ms and game clocks of 20-100 ms (wtime/btime: the time-management timer) on a larger search per shard; cache cleared before each run. Oracle: the interrupted run's log is an element-wise equal (entry and node counter) prefix of W, and under a budget N no write carries a node counter >= N. Non-trivial = a cut strictly inside the search with at least one write of W still pending above it; distinct by (position, depth, cut). exhaustive=true when every position had all its budgets run.";
+pub const RULE: &str = "for each (position, depth 2-3, and depth 4 for a few) - sparse corpus positions and proptest-synthesised sparse positions - the uninterrupted search's cache-write log W (hook H2: key, stored entry read back from the table, node counter) is recorded, then the search is re-run with EVERY node budget N = 1..S (S = nodes of the full search; all of them while S <= 1500 quick / 6000 thorough, an evenly strided sample beyond), with stop injected at the k-th cache write for every k, and with movetime 1-5 ms and game clocks of 20-100 ms (wtime/btime: the time-management timer) on a larger search per shard; cache cleared before each run. Oracle: the interrupted run's log is an element-wise equal (entry and node counter) prefix of W, and under a budget N no write carries a node counter >= N; and the cache contents left behind (read back in full) equal what the run's own write log implies (last write per key), so in-place modifications and writes that bypass the three insert sites are seen too. Non-trivial = a cut strictly inside the search with at least one write of W still pending above it; distinct by (position, depth, cut). exhaustive=true when every position had all its budgets run.";
 pub const ASSUMPTIONS: &[&str] = &[
     "the search is deterministic (C16) and limits are only read, so until the cut the interrupted run executes what the uninterrupted run does",
-    "hook H2 reports every cache insert (three sites in src/search.rs)",
+    "hook H2 reports every cache insert (three sites in src/search.rs); writes elsewhere are caught by comparing the final cache contents with the write log",
     "blind spot: a post-cut write that coincides in content and node counter with the uninterrupted one is indistinguishable (and harmless)",
     "the bestmove panic under tiny limits (C09's subject) is caught and ignored here: it happens after all cache traffic",
 ];
